@@ -27,7 +27,11 @@ Record c14_case := {
   c_m : nat;                                       (* declared user objectives *)
   c_tols : fvec;
   c_table : list (fvec * fvec * fvec * bool);      (* vector, costs, signed costs (numbers), flag *)
-  c_batches : list (list fvec) }.
+  c_batches : list (list fvec);
+  c_again : list (list nat) }.                     (* per batch: designs created earlier (by creation index
+                                                      among the submitted designs) that are handed to evaluate()
+                                                      once more, after the new ones; all empty = the runs the
+                                                      theorems are about *)
 
 Definition POISON : fvec := [nan; nan; nan; nan; nan; nan; nan].
 
@@ -90,15 +94,49 @@ Definition obs_of (r : st float * list (list nat)) : c14_obs :=
   Some (map (fun j => dump_of (h_get _ h j)) (seq 0 (h_next _ h)), s_log _ s, s_proc _ s,
         length (s_inds _ s), length (s_todo _ s), idss).
 
+(* runs in which evaluated designs are submitted again (outside the theorems; they exercise the
+   overwrite branch of the length test): the same evaluate functions of the model, on a batch made
+   of new cells followed by old ones *)
+Section Again.
+  Variable ev : st float -> list nat -> option (st float).
+  Fixpoint again_batches (s : st float) (created : list nat) (bs : list (list fvec)) (ag : list (list nat))
+    : option (st float * list (list nat)) :=
+    match bs with
+    | [] => Some (s, [])
+    | b :: bs' =>
+        let '(h1, ids) := new_designs float (s_heap _ s) b in
+        let old := map (fun k => nth k created 0) (hd [] ag) in
+        match ev (with_heap float s h1) (ids ++ old) with
+        | None => None
+        | Some s1 => match again_batches s1 (created ++ ids) bs' (tl ag) with
+                     | None => None
+                     | Some (s2, idss) => Some (s2, (ids ++ old) :: idss)
+                     end
+        end
+    end.
+End Again.
+
 Definition c14_run (c : c14_case) : c14_obs :=
   let t := c_table c in
-  if c_wc c then
-    obs_of (wc_batches float PrimFloat.add PrimFloat.sub PrimFloat.mul PrimFloat.abs
-                       0%float 1%float (-1)%float (if c_comp c then py_sum else plain_sum) (c_m c) (c_tols c)
-                       (tab_f t) (tab_sgn t) (tab_infeas t) (init float) (c_batches c))
+  let psum := if c_comp c then py_sum else plain_sum in
+  let wce := wc_evaluate float PrimFloat.add PrimFloat.sub PrimFloat.mul PrimFloat.abs
+                         0%float 1%float (-1)%float psum (c_m c) (c_tols c) (tab_f t) (tab_sgn t) (tab_infeas t) in
+  let ge := g_evaluate float PrimFloat.add PrimFloat.sub PrimFloat.div 0%float DELTA
+                       (tab_f t) (tab_sgn t) (tab_infeas t) in
+  if forallb (fun l => match l with [] => true | _ => false end) (c_again c) then
+    if c_wc c then
+      obs_of (wc_batches float PrimFloat.add PrimFloat.sub PrimFloat.mul PrimFloat.abs
+                         0%float 1%float (-1)%float psum (c_m c) (c_tols c)
+                         (tab_f t) (tab_sgn t) (tab_infeas t) (init float) (c_batches c))
+    else
+      match g_batches float PrimFloat.add PrimFloat.sub PrimFloat.div 0%float DELTA
+                      (tab_f t) (tab_sgn t) (tab_infeas t) (init float) (c_batches c) with
+      | Some r => obs_of r
+      | None => None
+      end
   else
-    match g_batches float PrimFloat.add PrimFloat.sub PrimFloat.div 0%float DELTA
-                    (tab_f t) (tab_sgn t) (tab_infeas t) (init float) (c_batches c) with
+    match again_batches (if c_wc c then fun s ids => Some (wce s ids) else ge)
+                        (init float) [] (c_batches c) (c_again c) with
     | Some r => obs_of r
     | None => None
     end.
